@@ -186,23 +186,36 @@ static bool port_refuses(int port) { lv::Conn c; bool ok = c.open_to(port); retu
 static void run_config(long idx, int workers, int clients, int nreq, int shutdownMode, uint64_t seed) {
     // shutdownMode: 0 after load (idle, connections closed), 1 idle with connections open, 2 mid-load, 3 slow handlers in flight, 4 before any load, 5 twice,
     // 6 after silent connections on every worker ran into a 1 s read time-out, 7 while accept fails for lack of descriptors,
-    // 8 while requests are in flight whose handlers do not finish before shutdown() has returned, 9 from inside a handler (a worker thread)
+    // 8 while requests are in flight whose handlers do not finish before shutdown() has returned, 9 from inside a handler (a worker thread),
+    // 10 after the load, on an endpoint served by the blocking serve() on the thread that created and initialised it
     std::string cfg = "workers=" + std::to_string(workers) + " clients=" + std::to_string(clients) + " requests=" + std::to_string(nreq) + " shutdown=" + std::to_string(shutdownMode);
     set_case(idx, Json().num("i", idx).str("phase", "c09").str("config", cfg).done());
     int threads0 = lv::thread_count();
     Responder responder; responder.start(); g_responder = &responder;
     g_slow_ms = shutdownMode == 3 ? 300 : 2;
     auto router = make_router();
-    auto* ep = new Http::Endpoint(Address(Ipv4::loopback(), Port(0)));
     auto opts = Http::Endpoint::options().threads(workers).flags(Tcp::Options::ReuseAddr);
     if (shutdownMode == 6) opts.headerTimeout(std::chrono::seconds(1)).bodyTimeout(std::chrono::seconds(1));
     g_short_timeouts = shutdownMode == 6;
-    ep->init(opts);
-    ep->setHandler(Rest::Router::handler(router));
-    ep->serveThreaded();
-    int port = ep->getPort();
+    Http::Endpoint* ep = nullptr; int port = 0; std::thread serveThread;
+    if (shutdownMode == 10) {
+        // the blocking way of serving: ONE thread creates the endpoint, initialises it and then runs the accept loop itself (Endpoint::serve());
+        // the load and, later, shutdown() come from other threads
+        { int s = ::socket(AF_INET, SOCK_STREAM, 0); struct sockaddr_in a{}; a.sin_family = AF_INET; a.sin_addr.s_addr = htonl(INADDR_LOOPBACK); a.sin_port = 0; ::bind(s, (struct sockaddr*)&a, sizeof a); socklen_t l = sizeof a; getsockname(s, (struct sockaddr*)&a, &l); port = ntohs(a.sin_port); ::close(s); }
+        std::atomic<Http::Endpoint*> pub{nullptr};
+        serveThread = std::thread([&, port] { auto* e = new Http::Endpoint(Address(Ipv4::loopback(), Port((uint16_t)port))); e->init(opts); e->setHandler(Rest::Router::handler(router)); pub.store(e); try { e->serve(); } catch (const std::exception&) { } });
+        wait_for([&] { return pub.load() != nullptr; }, 10.0); ep = pub.load();
+        wait_for([&] { lv::Conn c; return c.open_to(port); }, 10.0 * lv::load_factor());
+        count("configs_served_by_the_blocking_serve");
+    } else {
+        ep = new Http::Endpoint(Address(Ipv4::loopback(), Port(0)));
+        ep->init(opts);
+        ep->setHandler(Rest::Router::handler(router));
+        ep->serveThreaded();
+        port = ep->getPort();
+    }
     std::vector<std::thread> th; std::vector<ClientStats> stats((size_t)clients);
-    bool tolerate = shutdownMode >= 2 && shutdownMode != 4 && shutdownMode != 7;   // (mode 6: a keep-alive client may itself be timed out under load)
+    bool tolerate = shutdownMode >= 2 && shutdownMode != 4 && shutdownMode != 7 && shutdownMode != 10;   // (mode 6: a keep-alive client may itself be timed out under load)
     std::vector<std::unique_ptr<lv::Conn>> idleConns;
     if (shutdownMode != 4) for (int k = 0; k < clients; k++) th.emplace_back([&, k] { client_loop(port, k, nreq, seed * 131 + (uint64_t)k, tolerate, stats[(size_t)k], cfg); });
     int churners = shutdownMode == 4 ? 0 : 2;
@@ -259,6 +272,7 @@ static void run_config(long idx, int workers, int clients, int nreq, int shutdow
         { std::lock_guard<std::mutex> g(g_gate_m); g_gate_open = true; } g_gate_cv.notify_all();
     }
     if (shutdownMode == 5) ep->shutdown();
+    if (serveThread.joinable()) serveThread.join();   // (serve() returns once the acceptor has been told to stop)
     delete ep;
     done = true; dog.join();
     held.clear();
@@ -366,7 +380,7 @@ int main(int argc, char** argv) {
         int workers = (int)std::vector<int>{1, 2, 4, 8}[r.below(4)];
         int clients = r.range(1, (int)g_opts.num("maxclients", 12));
         int nreq = r.range(5, (int)g_opts.num("maxreq", 120));
-        int mode = (int)(n % 10);
+        int mode = (int)(n % 11);
         uint64_t seed = r.next();
         emit(Json().str("t", "progress").num("i", idx).num("stride", 1).done());
         if (idx <= skip) continue;
